@@ -6,6 +6,7 @@ import XL.Generated.Tables
 import XL.Model.Ops
 import XL.Model.FloatNum
 import XL.Model.Lex
+import XL.Model.BookProto
 /-!
 # Request dispatcher of the executable model
 -/
@@ -177,6 +178,7 @@ def answerOps (cmd : String) (args : List String) : Option String :=
 
 def answerParse (cmd : String) (args : List String) : Option String :=
   match cmd, args with
+  | "book", _ => BookProto.answerBook args
   | "parse", [t] =>
       pure (match parseString (decodeStr t) with
         | .ok a => "ok " ++ encodeStr (render a).toList
